@@ -6,6 +6,9 @@ import (
 	"sort"
 	"strconv"
 	"strings"
+	"unsafe"
+
+	"github.com/woodsbury/jmespath/internal/verifrt"
 )
 
 // Snapshot renders a raw JSON-model value completely, including the unused
@@ -174,4 +177,108 @@ func deepHash(b *strings.Builder, v reflect.Value, seen map[uintptr]bool, depth 
 	default:
 		fmt.Fprintf(b, "<%s>", v.Kind())
 	}
+}
+
+// ---------------------------------------------------------------------------
+// Saving and restoring package-level state (for explorations that start every
+// execution from the same state although the library keeps caches or pools).
+
+// SavedGlobals is a deep copy of every registered package-level variable.
+type SavedGlobals struct {
+	vals []reflect.Value // one deep copy per verifrt.Globals entry
+}
+
+// SaveGlobals copies the current value of every registered package-level variable.
+func SaveGlobals() *SavedGlobals {
+	s := &SavedGlobals{}
+	for _, g := range verifrt.Globals {
+		v := reflect.ValueOf(g.Ptr).Elem()
+		s.vals = append(s.vals, cloneValue(v, map[unsafe.Pointer]reflect.Value{}))
+	}
+	return s
+}
+
+// Restore puts (fresh deep copies of) the saved values back.
+func (s *SavedGlobals) Restore() {
+	for i, g := range verifrt.Globals {
+		dst := reflect.ValueOf(g.Ptr).Elem()
+		dst.Set(cloneValue(s.vals[i], map[unsafe.Pointer]reflect.Value{}))
+	}
+}
+
+// writable returns v without the read-only flag of unexported struct fields.
+func writable(v reflect.Value) reflect.Value {
+	if v.CanSet() || !v.CanAddr() {
+		return v
+	}
+	return reflect.NewAt(v.Type(), unsafe.Pointer(v.UnsafeAddr())).Elem()
+}
+
+// cloneValue deep-copies v; functions, channels and unsafe pointers are shared, cycles are preserved.
+func cloneValue(v reflect.Value, seen map[unsafe.Pointer]reflect.Value) reflect.Value {
+	if !v.IsValid() {
+		return v
+	}
+	out := reflect.New(v.Type()).Elem()
+	src := v
+	if v.CanAddr() {
+		src = writable(v)
+	} else if !v.CanInterface() {
+		panic("core: cloneValue reached a read-only value (every field must be taken through writable)")
+	}
+	switch v.Kind() {
+	case reflect.Ptr:
+		if src.IsNil() {
+			return out
+		}
+		p := src.UnsafePointer()
+		if c, ok := seen[p]; ok {
+			return c
+		}
+		np := reflect.New(v.Type().Elem())
+		seen[p] = np
+		np.Elem().Set(cloneValue(src.Elem(), seen))
+		out.Set(np)
+	case reflect.Interface:
+		if src.IsNil() {
+			return out
+		}
+		out.Set(cloneValue(src.Elem(), seen))
+	case reflect.Slice:
+		if src.IsNil() {
+			return out
+		}
+		n := reflect.MakeSlice(v.Type(), src.Len(), src.Cap())
+		for i := 0; i < src.Len(); i++ {
+			n.Index(i).Set(cloneValue(src.Index(i), seen))
+		}
+		out.Set(n)
+	case reflect.Array:
+		for i := 0; i < src.Len(); i++ {
+			out.Index(i).Set(cloneValue(src.Index(i), seen))
+		}
+	case reflect.Map:
+		if src.IsNil() {
+			return out
+		}
+		n := reflect.MakeMapWithSize(v.Type(), src.Len())
+		it := src.MapRange()
+		for it.Next() {
+			n.SetMapIndex(cloneValue(it.Key(), seen), cloneValue(it.Value(), seen))
+		}
+		out.Set(n)
+	case reflect.Struct:
+		// copy everything first (functions, channels, unexported scalars), then deep-copy the fields
+		out.Set(src)
+		for i := 0; i < src.NumField(); i++ {
+			f := src.Field(i)
+			switch f.Kind() {
+			case reflect.Ptr, reflect.Interface, reflect.Slice, reflect.Array, reflect.Map, reflect.Struct:
+				writable(out.Field(i)).Set(cloneValue(writable(f), seen))
+			}
+		}
+	default:
+		out.Set(src)
+	}
+	return out
 }
